@@ -67,9 +67,8 @@ def steps_case(nb=2, nt=2, dset=None, nsteps=2):
     state = dict(self=s, rand_int=rand_int, dist_diff=D, w=w.copy(), avg_grad_w=avg.copy(), ada_grad_w=ada.copy(), delta=delta,
                  best_obj=best_obj, n_triplets=nt, best_w=None)
     missing = [p for p in params if p not in state and p != 'iter']
-    ctx.require('sliced_step_has_the_expected_interface', ctx.cond(not missing), detail=str(missing))
     if missing:
-      return
+      ctx.mismatch('sliced step: free variables the harness cannot supply: %s' % missing)
     # ---- reference: the documented scheme, written independently -----------------------------------
     def reference(wv, av, gv, it, t):
       slack = 1 + sum(D[t, j] * wv[j] for j in range(nb))
